@@ -205,6 +205,13 @@ theorem two_pointer_eq_exhaustive (L : Rat) (xs : Seq) (hs : ClocksSorted xs) (h
     scanLoop_correct hs hL (scanFuel xs) 0 0 ⟨0, 0, 0⟩ inv_init (by unfold scanFuel; omega)
   exact ⟨r, h1, by rw [exhaustiveBest_eq_bestUpTo]; exact h2, h3, h4⟩
 
+/-- known finding F12, as the code is: for a window length ≤ 0 and a non-empty clock-sorted sequence the scan
+    walks `start` past the end and raises IndexError (for the empty sequence it returns `(0, 0, 0)`) -/
+theorem nonpositive_window_raises (L : Rat) (xs : Seq) (hs : ClocksSorted xs) (hL : L ≤ 0) :
+    (xs ≠ [] → findMaximumDealingInterval L xs = .error .indexError) ∧
+    findMaximumDealingInterval L [] = .ok ⟨0, 0, 0⟩ :=
+  ⟨nonpositive_window_indexError hs hL, rfl⟩
+
 /-- the slice sum of the model is the plain sum `Σ damage[s ..< e]` -/
 theorem sliceDamage_is_sum (xs : Seq) (s e : Nat) :
     sliceDamage xs s e = (((xs.drop s).take (e - s)).map (·.2)).sum := by
